@@ -37,22 +37,28 @@ Theorem c26_oracle_exact : forall ops r, c26_ok ops r = true <-> r = Some (spec_
 Proof. exact c26_ok_iff. Qed.
 Print Assumptions c26_oracle_exact.
 
-(* Memory persister: everything except the control record -- the record is written at most
-   once and never read back (mem_ctl_ok). *)
-Theorem c26_mem_partial : forall ops,
-  forallb op_bounded ops = true -> zero_free ops = true -> mem_ctl_ok ops = true ->
+(* Memory persister (code since commit 760121b), at full strength: for EVERY operation sequence
+   with numbers below 2^31 and searches/ranges starting at >= 1 every result is the contract's,
+   the control record included (the last one stored is returned; every control put succeeds).
+   No bound on the record length is needed, and reopen is not an operation of this persister.
+   The hypotheses are implied by ops_wf / zero_free of the file persister's theorem. *)
+Theorem c26_mem_refines : forall ops,
+  forallb op_bounded ops = true -> zero_free ops = true ->
   mem_outputs ops = Some (spec_outputs ops).
-Proof. exact c26_mem_partial_lemma. Qed.
-Print Assumptions c26_mem_partial.
+Proof. exact c26_mem_refines_lemma. Qed.
+Print Assumptions c26_mem_refines.
 
-(* ... and the control record is broken (F30): reading it back yields values unrelated to what
-   was stored (the oracle rejects them), and a second control put is refused *)
-Theorem c26_mem_refuted :
-  c26_ok [OCtlPut 5 7; OCtlGet] (mem_outputs [OCtlPut 5 7; OCtlGet]) = false /\
-  mem_outputs [OCtlPut 5 7; OCtlPut 6 8] = Some [RBool true; RBool false] /\
-  spec_outputs [OCtlPut 5 7; OCtlPut 6 8] = [RBool true; RBool true].
-Proof. exact c26_mem_refuted_lemma. Qed.
-Print Assumptions c26_mem_refuted.
+(* The code BEFORE 760121b (F30, repaired): reading the control record back yielded values
+   unrelated to what was stored (the oracle rejects them) and a second control put was refused;
+   the repaired code on the same inputs returns (5,7), accepts the second put, returns (6,8). *)
+Theorem c26_mem_orig_refuted :
+  c26_ok [OCtlPut 5 7; OCtlGet] (mem_outputs_orig [OCtlPut 5 7; OCtlGet]) = false /\
+  mem_outputs_orig [OCtlPut 5 7; OCtlPut 6 8] = Some [RBool true; RBool false] /\
+  spec_outputs [OCtlPut 5 7; OCtlPut 6 8] = [RBool true; RBool true] /\
+  mem_outputs [OCtlPut 5 7; OCtlGet; OCtlPut 6 8; OCtlGet] =
+    Some [RBool true; RCtl (Some (5, 7)); RBool true; RCtl (Some (6, 8))].
+Proof. exact c26_mem_orig_refuted_lemma. Qed.
+Print Assumptions c26_mem_orig_refuted.
 
 (* Range retrieval after any admissible history: the callback is handed exactly the stored
    records with from <= seq <= finish in ascending order (or the first [abort] of them when it
@@ -117,7 +123,7 @@ Print Assumptions c26_file_reopen_refuted.
 (* not zero_free: with a control record present, a search or range starting at 0 finds key 0
    and answers "nothing stored" (the session layer rejects BeginSeqNo = 0 before calling) *)
 Theorem c26_zero_request_refuted :
-  ops_wf zero_ops = true /\ reopen_safe zero_ops = true /\ mem_ctl_ok zero_ops = true /\
+  ops_wf zero_ops = true /\ reopen_safe zero_ops = true /\
   zero_free zero_ops = false /\
   file_outputs zero_ops = Some [RBool true; RBool true; RNum 0; RRange 0 [completion]] /\
   mem_outputs zero_ops = Some [RBool true; RBool true; RNum 0; RRange 0 [completion]] /\
@@ -135,8 +141,9 @@ Theorem c26_overlong_refuted :
 Proof. exact c26_overlong_refuted_lemma. Qed.
 Print Assumptions c26_overlong_refuted.
 
-(* Non-vacuity: a 15-operation history (accepted, duplicate and zero puts, a reopen, a search, an
-   aborted and two complete ranges) meets the hypotheses of both refinement theorems. *)
+(* Non-vacuity: an 18-operation history (accepted, duplicate and zero puts, a reopen, a search, an
+   aborted and two complete ranges, the control record read, replaced and read again) meets the
+   hypotheses of both refinement theorems. *)
 Theorem c26_nonvacuous :
   file_hyp nv_ops /\ mem_hyp nv_ops /\
   spec_outputs nv_ops =
@@ -144,6 +151,7 @@ Theorem c26_nonvacuous :
      RBytes (Some [1; 2]); RBytes None; RNum 9; RNum 5;
      RRange 2 [(2, [1; 2], false); (5, [], false); completion];
      RRange 3 [(2, [1; 2], false); (5, [], false); (9, [5; 6; 7], false); completion];
-     RBool true; RRange 2 [(7, [8], false); (9, [5; 6; 7], false); completion]].
+     RBool true; RRange 2 [(7, [8], false); (9, [5; 6; 7], false); completion];
+     RCtl (Some (4, 9)); RBool true; RCtl (Some (6, 1))].
 Proof. exact c26_nonvacuous_lemma. Qed.
 Print Assumptions c26_nonvacuous.
